@@ -21,6 +21,11 @@ pub struct HwScn {
     /// also run the history through ShapeWriter::from_path over longer pre-existing files
     #[serde(default)]
     pub path: bool,
+    /// the destinations are BufWriters the caller keeps and only lends to the writer (`&mut`): what
+    /// the devices hold right after the writer is dropped - the caller has not flushed anything
+    /// yet - is judged (write / finalize histories ending in a plain drop)
+    #[serde(default)]
+    pub lent: bool,
 }
 
 /// What the model says a history leaves behind: every W(i) is written, every Other(i) rejected.
@@ -42,7 +47,79 @@ fn history_site(p: &WProg) -> &'static str {
     }
 }
 
+/// Destinations lent to the writer (see `HwScn::lent`).
+fn execute_lent(scn: &HwScn, ctx: &mut Ctx) {
+    use crate::on_shape;
+    let p = &scn.w;
+    let StackCfg::Buf(_) = p.stack else {
+        ctx.fail("HARNESS", "invalid-scenario", "lent", "lent destinations are buffered ones".to_string());
+        return;
+    };
+    if p.calls.iter().any(|c| matches!(c, WCall::Other(_))) || !matches!(p.ending, Ending::Drop) {
+        ctx.fail("HARNESS", "invalid-scenario", "lent", "lent histories are made of writes and finalize calls and end in a drop".to_string());
+        return;
+    }
+    let Ok(shapes) = build_all(&p.shapes) else {
+        ctx.fail("HARNESS", "build", "ctor", "cannot build the shapes".to_string());
+        return;
+    };
+    let pat = pattern(p);
+    // reference: the same shapes written and dropped by a writer that owns its destinations
+    let plain = WProg { shapes: p.shapes.clone(), others: vec![], calls: p.calls.iter().filter(|c| matches!(c, WCall::W(_))).cloned().collect(), ending: Ending::Drop, with_shx: p.with_shx, stack: p.stack };
+    let world_b = World::new(Plan::default());
+    let run_b = run_writer(&world_b, &plain);
+    if run_b.build_panic.is_some() || run_b.marks.iter().any(|m| !m.res.is_ok()) {
+        ctx.fail("HARNESS", "invalid-scenario", "lent", "the reference run fails".to_string());
+        return;
+    }
+    let world = World::new(Plan::default());
+    let mut shp = Stack::writer(&world, SHP, p.stack);
+    let mut shx = Stack::writer(&world, SHX, p.stack);
+    let r = guarded(|| -> Result<(), shapefile::Error> {
+        let mut w = if p.with_shx { shapefile::ShapeWriter::with_shx(&mut shp, &mut shx) } else { shapefile::ShapeWriter::new(&mut shp) };
+        for c in &p.calls {
+            match c {
+                WCall::W(i) => on_shape!(&shapes[*i % shapes.len()], s => w.write_shape(s)?, ()),
+                WCall::Fin | WCall::FinRetry => w.finalize()?,
+                WCall::Other(_) => {}
+            }
+        }
+        Ok(())
+    });
+    match r {
+        Ok(Ok(())) => {}
+        Ok(Err(e)) => {
+            ctx.fail("C09", "write-ok", "lent", format!("history {} on lent destinations: {:?}", pat, classify(&e)));
+            return;
+        }
+        Err(pi) => {
+            ctx.fail("C09", "panic", pi.site(), format!("history {} on lent destinations: {}", pat, pi.text()));
+            return;
+        }
+    }
+    // the writer is gone, its destinations are still in the caller's hands, unflushed by the caller
+    {
+        let wb = world.borrow();
+        let wbb = world_b.borrow();
+        if wb.data(SHP) != wbb.data(SHP) {
+            ctx.fail("C09", "same-as-drop", "lent-destinations", format!("history {}: right after the writer was dropped the .shp device holds {} bytes that differ from write-then-drop ({} bytes) at offset {:?} (the destinations are BufWriters lent to the writer)", pat, wb.data(SHP).len(), wbb.data(SHP).len(), first_diff(wb.data(SHP), wbb.data(SHP))));
+        }
+        if p.with_shx && wb.data(SHX) != wbb.data(SHX) {
+            ctx.fail("C09", "same-as-drop", "lent-destinations", format!("history {}: right after the writer was dropped the .shx device holds {} bytes that differ from write-then-drop ({} bytes)", pat, wb.data(SHX).len(), wbb.data(SHX).len()));
+        }
+    }
+    drop(shp);
+    drop(shx);
+    ctx.stats.absorb_world(&world.borrow());
+    ctx.stats.reach("destinations-lent-to-the-writer");
+    ctx.stats.distinct.insert(crate::prng::fnv_str(&format!("lent|{}|{}|{:?}", p.shapes.first().map(|s| s.ty).unwrap_or(0), pat, p.stack)));
+}
+
 pub fn execute(scn: &HwScn, ctx: &mut Ctx) {
+    if scn.lent {
+        execute_lent(scn, ctx);
+        return;
+    }
     let p = &scn.w;
     let ty = p.shapes.first().map(|s| s.ty).unwrap_or(0);
     // validity of the scenario (the minimiser may produce histories outside the family)
@@ -365,7 +442,7 @@ pub fn c09_sweep_unit(unit: u64, max_len: usize, ctx: &mut Ctx, ctl: &mut UnitCt
                     1 => WCall::W(1),
                     _ => WCall::Fin,
                 }).collect();
-                let scn = HwScn { w: WProg { shapes: vec![o1.clone(), o2.clone()], others: vec![], calls, ending: if e == 0 { Ending::Drop } else { Ending::FinDrop }, with_shx, stack }, wplan: Plan::default(), path: false };
+                let scn = HwScn { w: WProg { shapes: vec![o1.clone(), o2.clone()], others: vec![], calls, ending: if e == 0 { Ending::Drop } else { Ending::FinDrop }, with_shx, stack }, wplan: Plan::default(), path: false, lent: false };
                 if !ctl.before_case(|| Scenario::HistW(scn.clone())) {
                     continue;
                 }
@@ -389,13 +466,24 @@ pub fn c09_sweep_unit(unit: u64, max_len: usize, ctx: &mut Ctx, ctl: &mut UnitCt
                 2 => Ending::PanicUnwind,
                 _ => Ending::WriteShapes(vec![1, 0]),
             };
-            let scn = HwScn { w: WProg { shapes: vec![a.clone(), b.clone()], others: vec![], calls, ending, with_shx, stack }, wplan: Plan::default(), path: with_shx && stack == StackCfg::Direct && seq.len() == 3 };
+            let scn = HwScn { w: WProg { shapes: vec![a.clone(), b.clone()], others: vec![], calls, ending, with_shx, stack }, wplan: Plan::default(), path: with_shx && stack == StackCfg::Direct && seq.len() == 3, lent: false };
             if !ctl.before_case(|| Scenario::HistW(scn.clone())) {
                 continue;
             }
             ctx.stats.evaluations += 1;
             execute(&scn, ctx);
             ctl.after_case(ctx, || Scenario::HistW(scn.clone()));
+            // the same history with destinations that are only lent to the writer
+            if e == 0 && seq.len() <= 4 && matches!(stack, StackCfg::Buf(_)) {
+                let mut scn3 = scn.clone();
+                scn3.path = false;
+                scn3.lent = true;
+                if ctl.before_case(|| Scenario::HistW(scn3.clone())) {
+                    ctx.stats.evaluations += 1;
+                    execute(&scn3, ctx);
+                    ctl.after_case(ctx, || Scenario::HistW(scn3.clone()));
+                }
+            }
             // the same history on destinations that already hold 104 bytes of older content (a reused
             // buffer that is a little longer than a header), for the plain-drop and finalize-then-drop
             // endings of the histories up to length 4. Not more than 104: every record and every index
@@ -416,6 +504,26 @@ pub fn c09_sweep_unit(unit: u64, max_len: usize, ctx: &mut Ctx, ctl: &mut UnitCt
             }
         }
     }
+}
+
+/// C10 on long histories: a rejected write after every accepted one, far beyond any count a writer
+/// may do something at (every 1000, every 2^16 records): unit 0 = 2100 records, unit 1 = 70000.
+pub fn c10_long_unit(unit: u64, ctx: &mut Ctx, ctl: &mut UnitCtl) {
+    let n = if unit == 0 { 2100usize } else { 70_000 };
+    let (ty, oty) = if unit == 0 { (1, 3) } else { (11, 1) };
+    let mut calls = Vec::with_capacity(2 * n);
+    for _ in 0..n {
+        calls.push(WCall::W(0));
+        calls.push(WCall::Other(0));
+    }
+    let scn = HwScn { w: WProg { shapes: vec![grid_spec(ty, 1, 1, 3)], others: vec![grid_spec(oty, 1, 2, 7)], calls, ending: Ending::Drop, with_shx: true, stack: StackCfg::Buf(8192) }, wplan: Plan::default(), path: false, lent: false };
+    if !ctl.before_case(|| Scenario::HistW(scn.clone())) {
+        return;
+    }
+    ctx.stats.evaluations += 1;
+    ctx.stats.reach("long-history-with-rejected-writes");
+    execute(&scn, ctx);
+    ctl.after_case(ctx, || Scenario::HistW(scn.clone()));
 }
 
 /// C10 sweep: unit = first type; all 12 offered types x histories x positions of the rejected call.
@@ -446,7 +554,7 @@ pub fn c10_sweep_unit(unit: u64, max_len: usize, ctx: &mut Ctx, ctl: &mut UnitCt
                     1 => Ending::FinDrop,
                     _ => Ending::WriteShapes(vec![0]),
                 };
-                let scn = HwScn { w: WProg { shapes: vec![a.clone(), b.clone()], others: vec![other.clone()], calls, ending, with_shx, stack }, wplan: Plan::default(), path: false };
+                let scn = HwScn { w: WProg { shapes: vec![a.clone(), b.clone()], others: vec![other.clone()], calls, ending, with_shx, stack }, wplan: Plan::default(), path: false, lent: false };
                 if !ctl.before_case(|| Scenario::HistW(scn.clone())) {
                     continue;
                 }
@@ -521,7 +629,7 @@ pub fn generate(r: &mut Rng, focus: &str) -> HwScn {
         wplan.dev[SHX] = gen_devcfg(r, true);
     }
     let with_shx = r.chance(3, 4);
-    HwScn { w: WProg { shapes, others, calls, ending, with_shx, stack: gen_stack(r) }, wplan, path: with_shx && r.chance(1, 24) }
+    HwScn { w: WProg { shapes, others, calls, ending, with_shx, stack: gen_stack(r) }, wplan, path: with_shx && r.chance(1, 24), lent: false }
 }
 
 // ---------------------------------------------------------------------------------------------
